@@ -1,6 +1,7 @@
 """C18 -- the simulated recession curve obeys the water-balance equation."""
 
 import copy
+import math
 
 import numpy as np
 import scipy.integrate
@@ -55,6 +56,13 @@ def cases(draw):
     for c in cells:
         levels.append(round(levels[-1] - c, 4))
     levels = sorted(set(levels))
+    int_grid = draw(st.sampled_from([False, False, False, True]))
+    if int_grid:
+        # a whole-millimetre grid, handed over as an integer array
+        # (np.arange(0, -401, -50))
+        levels = sorted(set(float(math.floor(v)) for v in levels))
+        if len(levels) < 2:
+            levels = [levels[0] - 5.0, levels[0]]
     if t_kind == 'spline':
         T = draw(gen_params.spline_T(min_gap=5.0, min_n=2, max_n=6))
         # ceiling: highest knot must lie at or above the top grid level
@@ -77,7 +85,7 @@ def cases(draw):
         lambda v: round(v, 4)), min_size=1, max_size=3))
     mean = draw(st.one_of(st.just(0.0), st.floats(-50.0, 50.0)))
     return {'sy': sy, 'T': T, 'levels': levels, 'et': et, 'curv': curv,
-            'extra': extra, 'mean': mean}
+            'extra': extra, 'mean': mean, 'int_grid': int_grid}
 
 
 def reference_T(T, level):
@@ -107,11 +115,15 @@ def check(case):
         return np.asarray(guarded(
             rec_mod.compute_recession_curve,
             specific_yield=sy, transmissivity_m2_d=T_m2_d,
-            zeta_grid_mm=np.array(grid, dtype=float),
+            zeta_grid_mm=(grid if isinstance(grid, np.ndarray)
+                          else np.array(grid, dtype=float)),
             mean_elapsed_time_d=case['mean'], curvature_km=curv,
             et_mm_d=et), dtype=float)
 
-    t = run(levels)
+    if case.get('int_grid') and all(float(v).is_integer() for v in levels):
+        t = run(np.array([int(v) for v in levels]))
+    else:
+        t = run(levels)
     if t.shape != levels.shape or not np.isfinite(t).all():
         raise Violation('recession-curve-shape-or-nonfinite', repr(t)[:200])
     knots = set()
